@@ -234,6 +234,27 @@ func runC01(r *rt.Run) {
 			lat.SeqsFrom(L4in, preH[i], 2, holeDepth, func(seq []exact.P) { doHole(seq, w) })
 		})
 	}
+	// holes that cross the exterior boundary: a small exterior (1..3)^2 with
+	// every hole sequence over the whole 5x5 lattice (probes on exterior
+	// edges that are strictly inside the hole occur)
+	{
+		small := P2(1, 1, 3, 1, 3, 3, 1, 3, 1, 1)
+		L5 := lat.Lattice(5, 0)
+		hd := 3
+		if r.Thorough() {
+			hd = 4
+		}
+		r.Bounds["crossing_hole_depth"] = hd
+		_, pre5 := lat.Shards2(L5)
+		r.ParFor(len(pre5), func(i int, w *rt.Worker) {
+			lat.SeqsFrom(L5, pre5[i], 3, hd, func(seq []exact.P) {
+				w.Trans += int64(len(seq))
+				s := &exact.Shape{Kind: exact.KPoly, Ext: small, Holes: [][]exact.P{append([]exact.P(nil), seq...)}}
+				c01Shape(s, ident, H5, fH5, idxCfgs[:3], w, false)
+				c01Object(s, ident, H5, fH5, idxCfgs[0], w)
+			})
+		})
+	}
 	// two holes: every triangle over the 3x3 sub-lattice x a second hole from
 	// the same set (thorough) / from a fixed list (quick)
 	L3in := lat.Lattice(3, 1)
